@@ -600,6 +600,8 @@ def write_evidence(prop, tier, seed, obligations, hs, verus_results, units, new_
     assumptions = scan_assumptions(hs, units)
     for vr in verus_results:
         assumptions += vr.get('assumptions', [])
+    extra = EXPLAIN.get('_assumptions', {})
+    assumptions += extra.get('*', []) + extra.get(prop, [])
     assumptions += [
         "Kani's NaN-propagation checks are ignored by name (NaN is a legal Lua value)",
         'bounded stand-ins are valid only up to their stated bound',
